@@ -92,6 +92,34 @@ fn case(t: &mut Tape, info: &mut CaseInfo) -> Result<(), String> {
         info.comparisons += 1;
         same(&format!("{name} vs map path"), &r, &r_map)?;
     }
+    // the same settings supplied through the individual Performance setters (generated order, mods not
+    // necessarily first), on the map path and on the attribute path
+    let insp = c.d.clone().inspect();
+    let mut order: Vec<u8> = (0..9).collect();
+    for i in (1..order.len()).rev() {
+        let j = t.below_usize(i + 1);
+        order.swap(i, j);
+    }
+    let via_setters = |mut p: Performance<'_>| {
+        for k in &order {
+            p = match k {
+                0 => p.mods(insp.mods.clone()),
+                1 => insp.passed_objects.map_or(p.clone(), |n| p.clone().passed_objects(n)),
+                2 => insp.clock_rate.map_or(p.clone(), |v| p.clone().clock_rate(v)),
+                3 => insp.ar.map_or(p.clone(), |v| p.clone().ar(v.value, v.with_mods)),
+                4 => insp.cs.map_or(p.clone(), |v| p.clone().cs(v.value, v.with_mods)),
+                5 => insp.hp.map_or(p.clone(), |v| p.clone().hp(v.value, v.with_mods)),
+                6 => insp.od.map_or(p.clone(), |v| p.clone().od(v.value, v.with_mods)),
+                7 => insp.hardrock_offsets.map_or(p.clone(), |v| p.clone().hardrock_offsets(v)),
+                _ => insp.lazer.map_or(p.clone(), |v| p.clone().lazer(v)),
+            };
+        }
+        score.apply(p).calculate()
+    };
+    // ar/cs are documented as irrelevant for taiko and mania, so the setter legs are equivalent there too
+    same("settings through individual setters (map path) vs Performance::difficulty", &via_setters(perf_for_mode(&c.map, c.target)), &r_map)?;
+    same("settings through individual setters (attribute path) vs map path", &via_setters(Performance::new(a.clone())), &r_map)?;
+    info.comparisons += 2;
     // mode-specific try_new on a foreign mode must refuse
     if let DifficultyAttributes::Taiko(_) = &a {
         if rosu_pp::osu::OsuPerformance::try_new(a.clone()).is_some() {
@@ -110,7 +138,7 @@ pub fn property() -> Property {
         id: "C04",
         subchecks: vec![SubCheck {
             name: "attrs-path-vs-map-path",
-            rule: "G-MAP (all modes + converts, <=50 objects) x G-DIFF incl. passed_objects (0..N+3, u32::MAX) x score builder spec (each of accuracy/combo/misses/every hit-result setter independently absent or 0..N+3, occasionally >>N, both priorities). Oracle: result of the mode-specific builder on the map == result from 12 other entry points (generic Performance::new on the explicitly converted map by ref/value, map.performance(), Performance::new/from(DifficultyAttributes), attrs.performance(), mode-specific attrs.performance()/Performance::new(attrs), the same for PerformanceAttributes incl. try_new) with the same Difficulty and score setters applied; embedded difficulty == one-shot difficulty. Non-trivial: score spec non-default, pp>0, settings non-default.",
+            rule: "G-MAP (all modes + converts, <=50 objects) x G-DIFF incl. passed_objects (0..N+3, u32::MAX) x score builder spec (each of accuracy/combo/misses/every hit-result setter independently absent or 0..N+3, occasionally >>N, both priorities). Oracle: result of the mode-specific builder on the map == result from 12 other entry points (generic Performance::new on the explicitly converted map by ref/value, map.performance(), Performance::new/from(DifficultyAttributes), attrs.performance(), mode-specific attrs.performance()/Performance::new(attrs), the same for PerformanceAttributes incl. try_new) with the same Difficulty and score setters applied, plus the same settings supplied through the individual Performance setters in a generated order on both the map and the attribute path; embedded difficulty == one-shot difficulty. Non-trivial: score spec non-default, pp>0, settings non-default.",
             quick: 12_000,
             thorough: 200_000,
             tape_len: 1500,
